@@ -31,7 +31,10 @@ The monitor keeps its own log of what every call *should* have recorded (rejecte
 failure by the acceptability predicate) stamped with the aligned 250 ms bucket index of the call time, and
 counts "the calls recorded in the preceding 10 s window" from that log: the current bucket and the 39 before. -/
 
-def bucketIdx (t0 t : Nat) : Nat := (t - t0) / intervalNs
+/-- aligned bucket number of time `t` in a window of `d`-ns buckets created at `t0` (any geometry) -/
+def bucketIdxD (d t0 t : Nat) : Nat := (t - t0) / d
+
+def bucketIdx (t0 t : Nat) : Nat := bucketIdxD intervalNs t0 t
 
 def inWindow (cur idx : Nat) : Bool := idx ≤ cur ∧ cur < idx + nBuckets
 
